@@ -31,6 +31,7 @@ Tx(t) == "name:n" \o ToString(t) \o "."
 
 NestStep(n, t) ==
   CASE n = "cancel" -> [op |-> "cancel"]
+    [] n = "setservers" -> [op |-> "setservers", csv |-> "10.0.0.2"]     \* the callback replaces the server list
     [] n = "query" -> [op |-> "query", t |-> 100 + t, name |-> Name(100 + t), qt |-> 1]
     [] n = "send" -> [op |-> "send", t |-> 100 + t, name |-> Name(100 + t), qt |-> 1]
     [] n = "search" -> [op |-> "search", t |-> 100 + t, name |-> Name(100 + t), qt |-> 1]
@@ -52,7 +53,7 @@ GInit == /\ cfg \in Cfgs
 NewReq == /\ nreq < MaxReq
           /\ \E api \in Apis, n \in Nests :
                /\ h' = Append(h, ReqStep(api, n, nreq + 1))
-               /\ live' = live \cup {nreq + 1} \cup (IF n \in {"none", "cancel"} THEN {} ELSE {100 + nreq + 1})
+               /\ live' = live \cup {nreq + 1} \cup (IF n \in {"none", "cancel", "setservers"} THEN {} ELSE {100 + nreq + 1})
           /\ nreq' = nreq + 1
           /\ UNCHANGED cfg
 
